@@ -1,4 +1,4 @@
-import Rangers.Proofs.JournalSteps
+import Rangers.Proofs.JournalSteps2
 /-!
 # Property C04 — reverting to a snapshot restores the account state exactly
 
@@ -23,19 +23,47 @@ open Rangers Rangers.Model.Journal Rangers.Proofs.Journal
 def Covered : Op → Bool
   | .setNonce .. | .incNonce .. | .setData .. | .create .. => true
   | .addBal .. | .subBal .. | .setBal .. | .transfer .. | .qBal .. => true
+  | .addFT .. | .subFT .. | .setFT .. | .qFT .. => true
   | .addRefund .. | .subRefund .. | .alAddr .. | .tset .. => true
   | .snapshot | .revert .. => true
   | .qExist .. | .qEmpty .. | .qNonce .. | .qData .. | .qSuicided .. | .qCodeSize .. | .qCodeHash .. => true
   | _ => false
+
+/-- `SetCode` journals the previous code hash through `common.BytesToHash`: the object's current code
+    hash must be a 32-byte hash (true of every hash the package itself produces) -/
+def CodeHashOk (s : ADB) (a : Addr) : Prop :=
+  match (resolveNew s a).2 with
+  | some o => o.codeHash.length = 32
+  | none => True
+
+instance (s : ADB) (a : Addr) : Decidable (CodeHashOk s a) := by
+  unfold CodeHashOk; split <;> infer_instance
+
+/-- side condition of one op in the state it is executed in -/
+def StepOk (s : ADB) : Op → Prop
+  | .setCode a _ _ => CodeHashOk s a
+  | op => Covered op = true
+
+instance (s : ADB) (op : Op) : Decidable (StepOk s op) := by
+  unfold StepOk; split <;> infer_instance
+
+instance decRunOk (c : Cfg) : (ops : List Op) → (s : ADB) → Decidable (RunOk StepOk c s ops)
+  | [], _ => isTrue trivial
+  | op :: ops, s => @instDecidableAnd _ _ inferInstance (decRunOk c ops (step c s op))
 
 /-- every op of the run is covered -/
 def AllCovered (ops : List Op) : Prop := ∀ op ∈ ops, Covered op = true
 
 instance (ops : List Op) : Decidable (AllCovered ops) := by unfold AllCovered; infer_instance
 
-theorem step_revAt (c : Cfg) (hp : c.p002 = true) (s : ADB) (op : Op) (hc : Covered op = true)
+theorem step_revAt (c : Cfg) (hp : c.p002 = true) (s : ADB) (op : Op) (hc : StepOk s op)
     (h1 : op ≠ Op.snapshot) (h2 : ∀ id, op ≠ Op.revert id) : RevAt c (fun x => step c x op) s := by
   cases op with
+  | setCode a code h =>
+    refine revAt_setCode c s a code h (fun s1 o hr => ?_)
+    have : CodeHashOk s a := hc
+    unfold CodeHashOk at this
+    rw [hr] at this; exact this
   | setNonce a n => exact revAt_setNonce c s a n
   | incNonce a => exact revAt_incNonce c s a
   | setData a k v => exact revAt_setData c s a k v
@@ -45,6 +73,10 @@ theorem step_revAt (c : Cfg) (hp : c.p002 = true) (s : ADB) (op : Op) (hc : Cove
   | setBal a n => exact revAt_setBalance c s a n
   | transfer a b n => exact revAt_transfer c hp s a b n
   | qBal a => exact revAt_getBalance c s a
+  | addFT a k n => exact revAt_addFT c s a k n
+  | subFT a k n => exact revAt_subFT c s a k n
+  | setFT a k n => exact revAt_setFT c s a k n
+  | qFT a k => exact revAt_getFT c s a k
   | addRefund g => exact revAt_addRefund c s g
   | subRefund g => exact revAt_subRefund c s g
   | alAddr a => exact revAt_alAddr c s a
@@ -58,14 +90,17 @@ theorem step_revAt (c : Cfg) (hp : c.p002 = true) (s : ADB) (op : Op) (hc : Cove
   | qSuicided a => exact revAt_qSuicided c s a
   | qCodeSize a => exact revAt_qCodeSize c s a
   | qCodeHash a => exact revAt_qCodeHash c s a
-  | _ => simp [Covered] at hc
+  | _ => simp [StepOk, Covered] at hc
+
+theorem stepOk_of_covered (s : ADB) (op : Op) (h : Covered op = true) : StepOk s op := by
+  cases op <;> first | exact h | simp [Covered] at h
 
 theorem runOk_of_allCovered (c : Cfg) (ops : List Op) (h : AllCovered ops) (s : ADB) :
-    RunOk (fun _ op => Covered op = true) c s ops := by
+    RunOk StepOk c s ops := by
   induction ops generalizing s with
   | nil => trivial
   | cons op ops ih =>
-    exact ⟨h op (List.mem_cons_self ..), ih (fun o ho => h o (List.mem_cons_of_mem _ ho)) _⟩
+    exact ⟨stepOk_of_covered _ _ (h op (List.mem_cons_self ..)), ih (fun o ho => h o (List.mem_cons_of_mem _ ho)) _⟩
 
 /-- `Sim`-equal states answer every query of the property alike -/
 theorem obs_of_sim (c : Cfg) {s t : ADB} (h : Sim s t) (hs : s.crashed = false) (a : Addr) (k : Key) (th hh : Hash) :
@@ -122,22 +157,23 @@ snapshot, run any list of covered ops — nested snapshots and reverts to any id
 to the snapshot.  If that revert does not panic, every query of the property answers as it did
 when the snapshot was taken. -/
 theorem revert_restores_obs_partial (c : Cfg) (hp : c.p002 = true) (s : ADB) (G : List ADB) (ops : List Op)
-    (hs : s.crashed = false) (ok : RevsOk s) (inv : Inv c s G) (hcov : AllCovered ops)
+    (hs : s.crashed = false) (ok : RevsOk s) (inv : Inv c s G) (hrun : RunOk StepOk c (snapshot s).1 ops)
     (hnc : (revert c (run c (snapshot s).1 ops) (snapshot s).2).crashed = false)
     (a : Addr) (k : Key) (th h : Hash) :
     obs c (revert c (run c (snapshot s).1 ops) (snapshot s).2) a k th h = obs c s a k th h := by
-  have hsim := revert_sim_generic c (fun _ op => Covered op = true)
-    (fun s op hc h1 h2 => step_revAt c hp s op hc h1 h2) ops hs ok inv (runOk_of_allCovered c ops hcov _) hnc
+  have hsim := revert_sim_generic c StepOk
+    (fun s op hc h1 h2 => step_revAt c hp s op hc h1 h2) ops hs ok inv hrun hnc
   exact obs_of_sim c hsim hnc a k th h
 
-/-- the same from a state with an empty revision stack (start of a transaction) -/
+/-- the same from a state with an empty revision stack (start of a transaction); for runs without
+    `SetCode` the side condition is just `AllCovered ops` (`runOk_of_allCovered`) -/
 theorem revert_restores_obs_fresh (c : Cfg) (hp : c.p002 = true) (s : ADB) (ops : List Op)
-    (hs : s.crashed = false) (hr : s.revisions = []) (hcov : AllCovered ops)
+    (hs : s.crashed = false) (hr : s.revisions = []) (hrun : RunOk StepOk c (snapshot s).1 ops)
     (hnc : (revert c (run c (snapshot s).1 ops) (snapshot s).2).crashed = false)
     (a : Addr) (k : Key) (th h : Hash) :
     obs c (revert c (run c (snapshot s).1 ops) (snapshot s).2) a k th h = obs c s a k th h :=
   revert_restores_obs_partial c hp s [] ops hs
-    ⟨by simp [hr], by simp [hr], by simp [hr]⟩ ⟨by simp [hr], by simp [hr]⟩ hcov hnc a k th h
+    ⟨by simp [hr], by simp [hr], by simp [hr]⟩ ⟨by simp [hr], by simp [hr]⟩ hrun hnc a k th h
 
 /-- every `undo` method maps states that answer all queries alike to such states -/
 theorem undo_respects_view (c : Cfg) (s t : ADB) (e : Entry) (h : Sim s t) : Sim (undo c s e) (undo c t e) :=
@@ -157,6 +193,8 @@ def demoOps : List Op :=
 /-- non-vacuity of `revert_restores_obs_fresh`: hypotheses hold for a concrete committed state and region,
     the region changes observations, and the revert brings them back -/
 example : AllCovered demoOps := by decide
+example : RunOk StepOk c0 (snapshot (setNonce ADB.empty A1 1)).1 (demoOps ++ [.setCode A1 [0x60] (toHash [9]), .addFT A1 [0x66, 0x3a, 0x78] 0]) := by
+  decide
 example : (revert c0 (run c0 (snapshot (setNonce ADB.empty A1 1)).1 demoOps) 0).crashed = false := by decide
 example : obs c0 (run c0 (snapshot (setNonce ADB.empty A1 1)).1 demoOps) A1 [0x6b] [] [1]
     ≠ obs c0 (setNonce ADB.empty A1 1) A1 [0x6b] [] [1] := by decide
